@@ -52,10 +52,9 @@ CACHE = os.path.join(VERIF, ".cache", "graphs")
 def _spec_digest(mod_files, cfg):
     import hashlib
     h = hashlib.sha256()
-    for f in sorted(os.listdir(tlc.SPEC_DIR)):
-        if f.endswith(".tla"):
-            h.update(f.encode())
-            h.update(open(os.path.join(tlc.SPEC_DIR, f), "rb").read())
+    for f in ("Gtirb.tla",):      # the MC_* modules of the cached runs extend Gtirb.tla only
+        h.update(f.encode())
+        h.update(open(os.path.join(tlc.SPEC_DIR, f), "rb").read())
     for k in sorted(mod_files):
         h.update(mod_files[k].encode())
     h.update(cfg.encode())
